@@ -6,14 +6,11 @@ set -u
 patch="$1"; shift
 cd /verif
 if ! git -C /repo diff --quiet; then echo "refusing: /repo working tree is dirty"; exit 3; fi
-restore() { git -C /repo checkout -q -- . ; git -C /repo clean -fdq -- pkg cmd 2>/dev/null; }
+restore() { git -C /repo reset -q; git -C /repo checkout -q -- . ; git -C /repo clean -fdq -- pkg cmd 2>/dev/null; }
 trap restore EXIT
 if [[ "$patch" == REVERT:* ]]; then
   c="${patch#REVERT:}"
-  if ! git -C /repo diff "$c^" "$c" | git -C /repo apply -R --3way 2>/tmp/mutant.err; then
-     if ! git -C /repo diff "$c^" "$c" | git -C /repo apply -R 2>>/tmp/mutant.err; then echo "APPLY-FAILED $patch: $(head -2 /tmp/mutant.err)"; exit 4; fi
-  fi
-  git -C /repo reset -q  # 3way may stage
+  if ! git -C /repo diff "$c^" "$c" | git -C /repo apply -R 2>/tmp/mutant.err; then echo "APPLY-FAILED $patch: $(head -2 /tmp/mutant.err)"; exit 4; fi
 else
   if ! git -C /repo apply "$patch" 2>/tmp/mutant.err; then echo "APPLY-FAILED $patch: $(head -2 /tmp/mutant.err)"; exit 4; fi
 fi
